@@ -268,6 +268,7 @@ type Opts struct {
 	Titles                    bool // some layer descriptors carry a title annotation (file-store names), one fixed name per blob
 	TitleClash                bool // with Titles: two different blobs share one title (a file store must refuse the second)
 	SHA512                    bool // some blobs are addressed by sha512 digests (long blob paths: PAX records in tar archives)
+	WideIndex                 int  // when >0, one more index lists up to this many distinct manifests (wide fan-out)
 	MixedCaseConfigTypes      bool // some custom config media types carry upper-case letters (media types are compared as written)
 	Trees                     int  // number of Tree nodes added on top (custom FindSuccessors needed to traverse them)
 	URLsOnLayers              bool // some ordinary (distributable) layer and manifest descriptors carry the optional urls property
@@ -557,6 +558,7 @@ func Generate(rng *rand.Rand, o Opts) *DAG {
 		return b.add(n)
 	}
 
+	forceK := 0
 	buildIndex := func(docker bool, subject int) int {
 		cands := b.nodesOf(func(n *Node) bool {
 			if !n.Kind.IsManifestKind() {
@@ -576,8 +578,14 @@ func Generate(rng *rand.Rand, o Opts) *DAG {
 			n.Succ = append(n.Succ, subject)
 		}
 		k := 1 + rng.IntN(3)
+		if forceK > 0 {
+			k = min(forceK, len(cands))
+		}
 		for i := 0; i < k; i++ {
 			id := b.pick(cands)
+			if forceK > 0 {
+				id = cands[i]
+			}
 			d := b.descOf(id)
 			if p := b.g.Nodes[id].Platform; p != nil {
 				pp := *p
@@ -656,6 +664,11 @@ func Generate(rng *rand.Rand, o Opts) *DAG {
 		default:
 			buildImage(false, subject, absent)
 		}
+	}
+	if o.WideIndex > 0 {
+		forceK = o.WideIndex
+		buildIndex(false, -1)
+		forceK = 0
 	}
 	for i := 0; i < o.Trees; i++ {
 		all := b.nodesOf(func(*Node) bool { return true })
